@@ -213,3 +213,27 @@ func (g *Gen) isInterfaceKey(k string) bool {
 	_, ok := obj.Type().Underlying().(*types.Interface)
 	return ok
 }
+
+// lemmaCtx: a function-less verification context holding one pure lemma obligation.
+func (g *Gen) lemmaCtx(lm *Lemma) *FnCtx {
+	pkgPath := ""
+	if lm.Pkg != nil {
+		pkgPath = lm.Pkg.Path()
+	}
+	fc := &FnCtx{g: g, name: pkgPath + ".lemma", q: newQuery(), vals: map[ssa.Value]Val{},
+		exitStates: map[*ssa.BasicBlock]*State{}, edgeConds: map[*ssa.BasicBlock][]string{},
+		oblNames: map[string]int{}, abstracted: map[string]bool{}, written: map[string]bool{},
+		ghostSort: map[string]string{}, ghostInit: map[string]string{}, loopOf: map[*ssa.BasicBlock]*loopInfo{},
+		backEdge: map[[2]int]bool{}, params: map[string]Val{}, paramTypes: map[string]types.Type{}, dupSafe: map[string]bool{}}
+	st := &State{fc: fc, reach: "true", locals: map[*ssa.Alloc]string{}, heap: map[string]string{}, ghost: map[string]string{}, nonnil: map[string]bool{}, bounds: map[string]string{}, baseBound: "alloc0", young: map[string]string{}}
+	st.allocB = fc.q.declare("alloc0", sInt)
+	env := &Env{fc: fc, vars: map[string]Val{}, pre: st, cur: st, pkg: lm.Pkg}
+	t, err := fc.evalBool(env, lm.Expr)
+	if err != nil {
+		fc.err = fmt.Errorf("lemma %s: %v", lm.Name, err)
+		return fc
+	}
+	o := &Obligation{Fn: fc.name, Kind: "lemma", Label: lm.Name, Goal: t, NAsserts: len(fc.q.asserts), Props: lm.Props}
+	fc.obls = append(fc.obls, o)
+	return fc
+}
